@@ -262,6 +262,9 @@ def run_intterms():
     from ndvc.concrete import dea3_integer_cases
     cnt, bad = dea3_integer_cases(mods()['ex'].dea3)
     solve.fact('integer-typed-terms-give-the-result-of-the-same-terms-as-floats[%d cases]' % cnt, not bad, kind='bounded', note=str(bad[:2])[:300])
+    from ndvc.concrete import dea3_layout_cases
+    cnt, bad = dea3_layout_cases(mods()['ex'].dea3)
+    solve.fact('every-memory-layout:element-in-array-bit-identical-to-scalar-evaluation[%d layouts]' % cnt, not bad, kind='bounded', note=str(bad[:2])[:300])
     return {}
 
 
@@ -272,6 +275,8 @@ def run_group(args):
 
 
 def replay_case(ob):
+    if ob['name'].startswith('integer-terms/every-memory-layout'):
+        return dict(kind='C13.layouts')
     if ob['name'].startswith('integer-terms/'):
         return dict(kind='C13.intterms')
     if 'symmetric' in ob['name']:
